@@ -90,11 +90,14 @@ ContextKinds == {"LiteralContextDependentNumber", "PairLiteralIntegerIdRef", "Li
 
 RECURSIVE ParseKind(_, _, _, _, _), ParseParams(_, _, _, _, _, _), ParseSig(_, _, _, _, _, _)
 
-\* parameters ps[j..] of an enumerant / mask value, each exactly once
+\* parameters ps[j..] of an enumerant / mask value, each as often as ITS quantifier says (the grammar gives
+\* Decoration BankBitsINTEL any number of literals; every other parameter occurs exactly once)
 ParseParams(ps, j, I, p, acc, ctx) ==
   IF j > Len(ps) THEN Good(p, acc)
+  ELSE IF ps[j].q # "One" /\ p > I.declared THEN ParseParams(ps, j + 1, I, p, acc, ctx)
   ELSE LET r == ParseKind(ps[j].k, I, p, ctx, "inside") IN
-       IF r.st # "ok" THEN r ELSE ParseParams(ps, j + 1, I, r.p, acc \o r.ops, ctx)
+       IF r.st # "ok" THEN r
+       ELSE ParseParams(ps, IF ps[j].q = "ZeroOrMore" THEN j ELSE j + 1, I, r.p, acc \o r.ops, ctx)
 
 \* one concrete operand of kind k at p; c = fault class if the instruction has no word left
 ParseKind(k, I, p, ctx, c) ==
